@@ -185,3 +185,13 @@ def finite_difference_gradient(h, d, bounded=False):
     m = h.mark()
     G0 = chain.finite_diff(t0.copy())
     h.defined("finite_diff is defined at a zero coordinate", G0, since=m)
+
+
+@unit("C07", quick=[dict(d=1), dict(d=2)], thorough=[dict(d=3)])
+def fold_at_the_limits_for_any_overshoot(h, d):
+    """the fold used inside bounded trajectories, for a raw position any distance outside the limits (several box widths,
+    non-zero lower limits): the reported momentum factor is the slope of the position fold (+1 / -1), so a multi-bounce
+    step is folded and its momentum reversed consistently.  Same execution of Bounds.reflect_momenta as C04's unit"""
+    from harness import c04
+    c04.momentum_factor_is_fold_slope(h, d)
+    c04.reflect_inside_and_identity(h, d)
